@@ -9,6 +9,69 @@ from .. import codec as K
 PROP = "C06"
 
 
+def rv_text(i, at):
+    op, rd, rs1, rs2, imm = i["op"], i["rd"], i["rs1"], i["rs2"], i["imm"]
+    if op in ("add", "sub", "sll", "slt", "sltu", "xor", "srl", "sra", "or", "and", "addw", "subw", "sllw", "srlw", "sraw"):
+        return "%s x%d, x%d, x%d" % (op, rd, rs1, rs2)
+    if op in ("addi", "slti", "sltiu", "xori", "ori", "andi", "slli", "srli", "srai", "jalr", "addiw", "slliw", "srliw", "sraiw"):
+        return "%s x%d, x%d, %d" % (op, rd, rs1, imm)
+    if op in ("lb", "lh", "lw", "lbu", "lhu", "lwu", "ld"):
+        return "%s x%d, %d(x%d)" % (op, rd, imm, rs1)
+    if op in ("sb", "sh", "sw", "sd"):
+        return "%s x%d, %d(x%d)" % (op, rs2, imm, rs1)
+    if op in ("beq", "bne", "blt", "bge", "bltu", "bgeu"):
+        return "%s x%d, x%d, 0x%x" % (op, rs1, rs2, at + imm)
+    if op in ("lui", "auipc"):
+        return "%s x%d, %d" % (op, rd, imm)
+    if op == "jal":
+        return "jal x%d, 0x%x" % (rd, at + imm)
+    return op
+
+
+def field_fit(chk, vdir, tier, rnd):
+    """second sentence of C06 where the architecture's field widths are in the specification (Rv32iEnc.tla: RV32I, and the
+    RV64I word forms under .riscv64): an operand its field cannot hold is rejected, one it can hold is encoded as the manual says"""
+    import os
+    AT = 0x200000
+    total = 0
+    for cpu, cfg, tag in (("riscv", "gen_Rv32iEnc.cfg", "fit32"), ("riscv64", "gen_Rv64iEnc.cfg", "fit64")):
+        g = C.tlc("GenRv32iEnc", cfg, os.path.join(chk.rundir, tag), workers=4, heap="4g")
+        chk.add_tlc(g)
+        insts = C.parse_payload(g.lines, "CASE ")
+        if len(insts) < 600:
+            raise C.InfraError("only %d %s instructions" % (len(insts), cpu))
+        if tier == "quick" and len(insts) > 2500:
+            insts = rnd.sample(insts, 2500)
+        cases = [(tag, "kind=asm cpu=%s addr=%d" % (cpu, AT), "\n".join(rv_text(i, AT) for i in insts))]
+        r = {o["case"]: o for o in C.conform_parallel(vdir, "codec", cases, chk.rundir, tag, 60, nproc=1)}.get(tag)
+        if not r or "res" not in r or len(r["res"]) != len(insts):
+            raise C.InfraError("%s field cases not executed: %s" % (cpu, str(r)[:300]))
+        events = [dict(id="%s.%d" % (tag, n), i=i, acc=bool(ok), b=list(bytes.fromhex(b))) for n, (i, (ok, b)) in enumerate(zip(insts, r["res"]))]
+        canaries = set()
+        for e in rnd.sample([e for e in events if not e["acc"]], min(6, len([e for e in events if not e["acc"]]))):
+            c = json.loads(json.dumps(e))
+            c["id"] = "canary." + e["id"]
+            c["acc"] = True
+            canaries.add(c["id"])
+            events.append(c)
+        verdicts, runs = C.tlc_accept("TraceRv32iEnc", "trace_Rv32iFit.cfg", events, chk.rundir, tag, heap="3g", nchunks=4)
+        for r_ in runs:
+            chk.add_tlc(r_)
+        bad = {v["id"]: v["why"] for v in verdicts}
+        if [c for c in canaries if c not in bad]:
+            raise C.InfraError("field-fit canaries accepted")
+        byid = {e["id"]: e for e in events}
+        for vid, why in sorted(bad.items()):
+            if vid in canaries:
+                continue
+            e = byid[vid]
+            chk.report("C06:%s:field:%s:%s" % (cpu, why, e["i"]["op"]),
+                       "%s: .%s '%s' at 0x%x -> %s" % (why, cpu, rv_text(e["i"], AT), AT, bytes(e["b"]).hex() if e["acc"] else "rejected"),
+                       dict(cpu=cpu, instruction=e["i"], text=rv_text(e["i"], AT), accepted=e["acc"], bytes=bytes(e["b"]).hex(), why=why))
+        total += len(events) - len(canaries)
+    return total
+
+
 def run(tier, seed):
     chk = C.Check(PROP, tier, seed, "model_checking")
     rnd = random.Random(seed)
@@ -107,8 +170,10 @@ def run(tier, seed):
                    ".%s '%s' operand %d: values %d and %d are both accepted and give the same bytes %s" % (
                        cpu, text, pos, vals[i - 1][1], vals[j - 1][1], byid[vid]["res"][i - 1][1]),
                    dict(cpu=cpu, form=text, operand=pos, v1=vals[i - 1][1], v2=vals[j - 1][1], bytes=byid[vid]["res"][i - 1][1]))
+    nfit = field_fit(chk, vdir, tier, rnd)
     chk.cov.update(dict(
-        evaluations=sum(len(c[2].split("\n")) for c in cases),
+        field_fit_instructions=nfit,
+        evaluations=sum(len(c[2].split("\n")) for c in cases) + nfit,
         distinct_nontrivial=len(cases),
         rule="every instruction text of tests/comparison/*.txt that has a numeric operand each numeric "
              "operand position probed with the values of Codec!ProbeSet (2^k-1, 2^k, 2^k+1, -2^k, -2^k-1, -2^k+1 for k = 1..17, 20, 21, 23, 24, 26, 31, 32); non-trivial/distinct = (cpu, form, operand position) groups",
